@@ -106,6 +106,11 @@ func (m *manager) Run() (err error) {
 			var poll Poll
 			poll, err = openPoll()
 			if err != nil {
+				// the pollers opened by this call are not in m.polls yet: close them here,
+				// the deferred m.Close() does not know them
+				for _, opened := range polls[len(m.polls):idx] {
+					_ = opened.Close()
+				}
 				return err
 			}
 			verifPoint(vpPollOpened, poll, idx)
